@@ -158,7 +158,7 @@ proof {
 //@extract fn get_num_cells from src/core/cell_info.rs ret=r tags=C04,C14
 //@spec
 ensures
-    resolution < 0 ==> r == 0,
+    resolution < 0 ==> r == 0,                                                     // [C04:get_num_cells.negative]
     resolution == 0 ==> r == 12,                                                   // [C04:get_num_cells.base]
     1 <= resolution <= 27 ==> r == 60 * ipow(4, (resolution - 1) as nat),          // [C04:get_num_cells.exact]
     28 <= resolution <= 29 ==> r >= 1 && close_to(r as int, 60 * ipow(4, (resolution - 1) as nat)),   // [C04:get_num_cells.rounded]
